@@ -128,7 +128,7 @@ type schedC struct {
 	fid, spec, seed, filter int
 }
 
-var cronSpecs = map[int]string{1: "* * * * *", 2: "*/15 * * * *", 3: "@hourly", 4: "@daily", 5: "0,30 * * * *"}
+var cronSpecs = map[int]string{1: "* * * * *", 2: "*/15 * * * *", 3: "@hourly", 4: "@daily", 5: "0,30 * * * *", 6: "@weekly"}
 
 type ecfg struct {
 	scheds []schedC
